@@ -18,6 +18,7 @@ type c06World struct {
 	complete Env
 	unknownP, unknownR     bool // principal / resource unknown
 	unkK, unkRA, unkS      bool // context.k, context.r.a, element of context.s unknown
+	unkB, unkRF            bool // Boolean unknowns: context.b, context.r.f
 	ignoreP, ignoreK       bool
 }
 
@@ -37,7 +38,7 @@ func c06Mk(mask int, ignoreMask int) c06World { return c06MkSel(mask, ignoreMask
 
 func c06MkSel(mask int, ignoreMask int, scopeHarness bool) c06World {
 	w := c06World{unknownP: mask&1 != 0, unknownR: mask&2 != 0, unkK: mask&4 != 0, unkRA: mask&8 != 0, unkS: mask&16 != 0,
-		ignoreP: ignoreMask&1 != 0, ignoreK: ignoreMask&2 != 0}
+		ignoreP: ignoreMask&1 != 0, ignoreK: ignoreMask&2 != 0, unkB: mask&32 != 0, unkRF: mask&64 != 0}
 	attr := vrt.Int64("e.a")
 	store := c06Store(attr)
 	// completion values
@@ -52,10 +53,12 @@ func c06MkSel(mask int, ignoreMask int, scopeHarness bool) c06World {
 	ra := vrt.Int64("context.r.a")
 	s0 := vrt.Int64("context.s[0]")
 	b := vrt.Bool("context.b")
+	rf := vrt.Bool("context.r.f")
+	var bv, rfv types.Value = types.Boolean(b), types.Boolean(rf)
 	mkCtx := func(kv, rav, s0v types.Value) types.Record {
 		return types.NewRecord(types.RecordMap{
-			"k": kv, "b": types.Boolean(b),
-			"r": types.NewRecord(types.RecordMap{"a": rav}),
+			"k": kv, "b": bv,
+			"r": types.NewRecord(types.RecordMap{"a": rav, "f": rfv}),
 			"s": types.NewSet(s0v, types.Long(7)),
 		})
 	}
@@ -83,6 +86,12 @@ func c06MkSel(mask int, ignoreMask int, scopeHarness bool) c06World {
 	}
 	if w.unkS {
 		s0v = Variable("s0")
+	}
+	if w.unkB {
+		bv = Variable("b")
+	}
+	if w.unkRF {
+		rfv = Variable("rf")
 	}
 	w.partial = Env{Entities: store, Principal: pv, Action: types.NewEntityUID("Action", "act"), Resource: rv, Context: mkCtx(kv, rav, s0v)}
 	return w
@@ -155,9 +164,10 @@ func c06LeafSet() []int {
 
 func c06Mask() int {
 	// which parts are unknown: principal(1) k(4) r.a(8) s0(16); at most two unknowns
-	masks := []int{0, 1, 4, 8, 16, 1 | 4, 4 | 8, 8 | 16, 1 | 8}
+	// Boolean unknowns: b(32), r.f(64) - the operands of && || if that can be satisfied
+	masks := []int{0, 1, 4, 8, 16, 32, 64, 1 | 4, 4 | 8, 8 | 16, 1 | 8, 32 | 64, 4 | 32}
 	if !vrt.Thorough() {
-		masks = []int{1, 4, 8, 4 | 8}
+		masks = []int{1, 4, 8, 32, 4 | 8}
 	}
 	return masks[vrt.Choice("unknown-mask", len(masks))]
 }
@@ -240,4 +250,40 @@ func VerifC06_IgnorePermit() {
 		vrt.Assert("C06.ignore.permit-kept", keep)
 		vrt.Assert("C06.ignore.widens", keep && c06Satisfied(res, w.complete))
 	}
+}
+
+
+// Boolean unknowns as operands of the lazy connectives: `u && x`, `x || u`,
+// `if u then .. else ..`, with the unknown reached directly (context.b) or through
+// an attribute access on a record that holds it (context.r.f).
+func VerifC06_BooleanUnknown() {
+	mask := []int{32, 64, 32 | 64, 32 | 4}[vrt.Choice("unknown-mask", 4)]
+	w := c06Mk(mask, 0)
+	c := vrt.Int64("const")
+	u1, u2 := ast.Context().Access("b"), ast.Context().Access("r").Access("f")
+	known := ast.Context().Access("k").LessThan(ast.Long(c))
+	var n ast.Node
+	switch vrt.Choice("form", 10) {
+	case 0:
+		n = u1.And(known)
+	case 1:
+		n = known.And(u1)
+	case 2:
+		n = u2.Or(known)
+	case 3:
+		n = known.Or(u2)
+	case 4:
+		n = ast.IfThenElse(u1, known, ast.Not(known))
+	case 5:
+		n = ast.IfThenElse(known, u2, u1)
+	case 6:
+		n = u1.And(u2)
+	case 7:
+		n = ast.Not(u2).Or(u1.And(known))
+	case 8:
+		n = ast.IfThenElse(u2, u1, ast.False()).Equal(ast.True())
+	case 9:
+		n = u2.And(ast.Context().Access("r").Has("f"))
+	}
+	c06Check(c06Policy(n, vrt.Choice("unless", 2) == 1), w)
 }
